@@ -65,7 +65,7 @@ CLAIMED = {
             "DESIGN 7 C13"),
     "C14": ("Theorems (Lean 4; the flag/universe/look-ahead ones for any number type with < and 0, ranking for any linear order, total return for ordered fields) about an executable model of the 13 selection algos: each selector meets its specification (exact filtered list, KeyError cases), default flags give only tickers with a present positive current price, filters return sub-lists of the prior selection, nothing after `now` is read, SelectN's stable-sort function satisfies the order-insensitive top-k relation whose meaning (size min(k,|eligible|), dominance, all_or_none, filter_selected) is proved, StatTotalReturn = last/first-1 over the resolved window.  The model is run against the real algos on generated universes/parameters/prior temp (direct calls and tapped Backtest runs; lists compared exactly, ranked/random outputs by evaluating the Lean relation on the real output; window positions checked against the frame the algo actually slices); an independent monitor recomputes the documented set.  Date offsets are resolved by pandas on the Python side; regex/random.sample/isinstance are parameters.  Known findings: include_no_data=True also disables the price>0 filter (6 algos) and lets names outside the universe through (3 algos).",
             "DESIGN 7 C14"),
-    "C15": ("Theorems (Lean 4, any linearly ordered field; sqrt only through the assumption sqrt(x)>=0, sqrt(x)^2=x, instantiated at the reals) about an executable model of the weighting algos: equal weights sum to one; specified weights are handed out as a copy; linear rescale; dated target row with missing dropped / False when the date is absent; LimitDeltas bound for every held or targeted name, untouched and clipped values; LimitWeights / ffn.limit_weights: cap respected whenever weights come out, recursion depth n+1 suffices, total preserved for positive weights summing to one, {} when infeasible; ffn.random_weights for all uniform draws and shuffles (bounds, total, {} when infeasible); inverse-volatility weights positive, sum one, weight x volatility constant; window exact and prefix-determined (no look-ahead); TargetVol scaling hits the target; PTE_Rebalance True iff tracking-error volatility above the cap.  ERC / mean-variance optimisers are external: bt's plumbing is modelled and compared, their outputs are checked at run time by Lean-defined predicates (runtime verification, not proof).  Every generated case runs the real algo on a real Strategy and the model through the driver; independent numpy monitors evaluate the documented relations.  Known findings: LimitWeights NaN on zero-sum below-cap weights, TargetVol frozen per-name dict, ledoit-wolf branches of TargetVol/PTE_Rebalance always raise.",
+    "C15": ("Theorems (Lean 4, any linearly ordered field; sqrt only through the assumption sqrt(x)>=0, sqrt(x)^2=x, instantiated at the reals) about an executable model of the weighting algos: equal weights sum to one; specified weights are handed out as a copy; linear rescale; dated target row with missing dropped / False when the date is absent; LimitDeltas bound for every held or targeted name, untouched and clipped values; LimitWeights / ffn.limit_weights: cap respected whenever weights come out, recursion depth n+1 suffices, total preserved for positive weights summing to one, {} when infeasible; ffn.random_weights for all uniform draws and shuffles (bounds, total, {} when infeasible); inverse-volatility weights positive, sum one, weight x volatility constant; window exact and prefix-determined (no look-ahead); TargetVol scaling hits the target; PTE_Rebalance True iff tracking-error volatility above the cap.  ERC / mean-variance optimisers are external: bt's plumbing is modelled and compared, their outputs are checked at run time by Lean-defined predicates (runtime verification, not proof).  Every generated case runs the real algo on a real Strategy and the model through the driver; independent numpy monitors evaluate the documented relations.  Inside whole programs (C15_progw; complete backtests executed by the driver and compared bit for bit): the weights handed to Rebalance are the post-processing steps applied in stack order to the weigher's output (`progRunX_hands_post_weights`, `post_order`), with LimitWeights last every handed weight respects the cap and a feasible cap keeps the total (`limitWeights_last`, `equally_limitWeights`), ScaleWeights last scales name by name and in total, LimitDeltas last keeps every iterated name within its limit of the child's weight on the refreshed tree, a closed gate or a selector answering False leaves the world unchanged (`progRunX_idle`).  Known findings: LimitWeights NaN on zero-sum below-cap weights, TargetVol frozen per-name dict, ledoit-wolf branches of TargetVol/PTE_Rebalance always raise.",
             "DESIGN 7 C15"),
     "C10": ("42 theorems on the engine model (operations return Except Err): each enumerated ill-formed class returns its specific error (NaN price / NaN coupon on an open position, "
             "allocate at a missing or zero price, zero return base for both index formulas, custom price without bid/offer, parentless security; transact at a NaN price is an explicit "
@@ -91,7 +91,11 @@ CLAIMED = {
             "`Rebalance_within_costs` (any commission function, any spreads, fractional: each target ends within the cost booked for its own trade, up to the isclose exit of the sizing search; "
             "total' = total - costs), `Rebalance_within_unit_plus_costs` / `Rebalance_unit_bound` (whole units), `Rebalance_at_path` / `Rebalance_exact_at_path` (any path of any tree), "
             "`Rebalance_substrategy_targets`, `Rebalance_from_stale`; Lean witness that a flat fee can swallow a small target. Correspondence: the real Rebalance call re-executed by the model from "
-            "the real pre-state on random prior portfolios; monitor: target weights, closed non-targets, cash remainder, sub-strategy spreading, n-step variant.",
+            "the real pre-state on random prior portfolios; monitor: target weights, closed non-targets, cash remainder, sub-strategy spreading, n-step variant. "
+            "Inside whole programs (C06_progw, C06_progs; executed end to end by the driver and compared bit for bit with real backtests, requests wholerunx / wholeruns): a stack with SetCash(c) is the same "
+            "stack with ScaleWeights(1-c) last (`progRunX_cash_eq_scale`, `rebalance_cash_is_scale`), RebalanceOverTime(n) hands cur + (w - cur)/n (`overTime_last`), and for run_always(RebalanceOverTime) with the "
+            "algo object's memory threaded through the run: fresh weights re-arm it, an idle day trades only when armed, an armed call refreshes, hands cur + (w - cur)/left and counts down, with one period left "
+            "the handed weights are the remembered target itself, the target is held through k further calls and dropped after k+1 (`rot_*`), and a memoryless program is the lifted `simRunG` (`memoryless_instance`).",
             "DESIGN 7 C06"),
     "C04": ("Theorems (Bt.C04, ~60) over the engine and run-level model: truncating every supplied data column after row t commutes with every engine operation executed at a clock <= t "
             "(`secUpdate_trunc` ... `updRoot_trunc` incl. the bankruptcy branch, all seven public operations and every getter's refresh under the clock invariant `ClockLE`, which every public "
